@@ -109,6 +109,10 @@ def solve_milp(
     if root_result.status == LPStatus.UNBOUNDED:
         return Result(None, float("-inf") if minimize else float("inf"), 0, total_iters, Status.UNBOUNDED)
 
+    if root_result.status != LPStatus.OPTIMAL:
+        # The relaxation was not solved (iteration limit): nothing can be concluded
+        return Result(None, float("inf") if minimize else float("-inf"), 0, total_iters, Status.MAX_ITER)
+
     best_solution, best_obj = None, float("inf") if minimize else float("-inf")
     sign = 1 if minimize else -1
     all_solutions: list[tuple[float, ...]] = []
@@ -173,6 +177,7 @@ def solve_milp(
     heappush(tree, (root_bound, counter, Node(root_bound, tuple(lower), tuple(upper), 0)))
     counter += 1
     nodes_explored = 0
+    unresolved = False  # some node LP hit its iteration limit: its subtree was not explored
     if _verif.ENABLED:  # pragma: no cover
         _verif.emit("milp_open_root", lower=list(lower), upper=list(upper), bound=root_bound)
 
@@ -190,6 +195,8 @@ def solve_milp(
         nodes_explored += 1
 
         if result.status != LPStatus.OPTIMAL:
+            if result.status != LPStatus.INFEASIBLE:
+                unresolved = True
             if _verif.ENABLED:  # pragma: no cover
                 _verif.emit(
                     "milp_node", act="lp_" + result.status.name.lower(), lower=list(node.lower), upper=list(node.upper)
@@ -267,9 +274,10 @@ def solve_milp(
             )
 
     if best_solution is None:
-        return Result(None, float("inf") if minimize else float("-inf"), nodes_explored, total_iters, Status.INFEASIBLE)
+        status = Status.MAX_ITER if unresolved or tree else Status.INFEASIBLE
+        return Result(None, float("inf") if minimize else float("-inf"), nodes_explored, total_iters, status)
 
-    status = Status.OPTIMAL if not tree else Status.FEASIBLE
+    status = Status.OPTIMAL if not tree and not unresolved else Status.FEASIBLE
     if solution_limit > 1 and all_solutions:
         return Result(best_solution, best_obj, nodes_explored, total_iters, status, solutions=tuple(all_solutions))
     return Result(best_solution, best_obj, nodes_explored, total_iters, status)
